@@ -106,10 +106,16 @@ package cache
 // A key that was never stored is a miss.
 //@ assume func (dirCache).retrieveCompressed
 //@   modifies nothing
-//@ assume func (dirCache).ensureRetrieveReady
+// ensureRetrieveReady: whatever is at the output's place is removed before anything is restored there, for
+// every output (nested or not) — a restore never writes over stale bytes (C02).
+//@ func (dirCache).ensureRetrieveReady
+//@   requires cache != nil && target != nil
 //@   modifies nothing
+//@   opt nopanic=off
+//@   callsite fs.RemoveAll the_output_itself [C02]: arg_path == fullOut
+//@   ensures the_old_output_is_removed_first [C02]: result1 == nil ==> called("fs.RemoveAll") && result0 == fullOut
 //@ func (dirCache).retrieveFiles
-//@   requires cache != nil && cache.added != nil
+//@   requires cache != nil && cache.added != nil && target != nil
 //@   opt nopanic=off
 //@   ensures a_hit_protects_the_entry_from_cleaning [C14]: result0 ==> in(cacheDir, cache.added)
 //@   ensures never_stored_is_a_miss [C12]: !old(core.PathExists(cacheDir)) ==> !result0 && result1 == nil
